@@ -57,17 +57,17 @@ func (e *schedEngine) Plan(seed uint64, tier string) int {
 	switch e.variant {
 	case "instr":
 		if th {
-			return 120000
+			return 400000
 		}
 		return 3000
 	case "race":
 		if th {
-			return 30000
+			return 100000
 		}
 		return 800
 	}
 	if th {
-		return 300000
+		return 1000000
 	}
 	return 8000
 }
